@@ -19,6 +19,11 @@ Proof.
   induction l; simpl; [constructor|]. destruct (pred a) eqn:E; simpl; constructor; assumption.
 Qed.
 
+Lemma span_len_maximal pred l : next_not pred (skipn (span_len pred l) l).
+Proof.
+  induction l as [|a l IH]; simpl; [exact I|]. destruct (pred a) eqn:E; simpl; [exact IH | exact E].
+Qed.
+
 (* ---------- positions ---------- *)
 Lemma count_nl_snoc l c : count_nl (l ++ [c]) = (count_nl l + (if (c =? 10)%N then 1 else 0))%nat.
 Proof.
@@ -369,6 +374,74 @@ Section Proofs.
     - intros Hb _. simpl. constructor; [apply Hc0; exact Hb | constructor].
   Qed.
 
+  (* ---------- maximal munch of one token ---------- *)
+  Notation maximal_munch := (maximal_munch uni_letter uni_digit b).
+
+  Lemma keyword_type_plain k : In k (map snd keywords) -> plain_type k = true.
+  Proof.
+    intro H. apply in_map_iff in H as [[w k'] [E Hin]]. simpl in E. subst k'.
+    exact (proj1 (keyword_entry _ _ Hin)).
+  Qed.
+
+  Ltac munch_vacuous :=
+    let H := fresh in
+    intro H; inversion H; subst; clear H;
+    repeat split;
+    (let X := fresh "X" in
+     intro X;
+     first [ discriminate X
+           | destruct X as [X|X]; [discriminate X | simpl in X; intuition discriminate] ]).
+
+  Lemma next_token_munch c rest ty lit len off line col :
+    next_token c rest = (ty, lit, len) ->
+    maximal_munch (mkToken ty lit off line col) (skipn len (c :: rest)).
+  Proof.
+    unfold Lexer.next_token, fixed1, with_eq, LexerSpec.maximal_munch. cbn [t_type].
+    destruct ((c =? 32) || (c =? 9)).
+    { intro H; inversion H; subst; clear H. simpl skipn.
+      repeat split; intro X; try discriminate X.
+      - apply span_len_maximal.
+      - destruct X as [X|X]; [discriminate X | apply keyword_type_plain in X; discriminate X]. }
+    destruct (c =? 61). { destruct (peek rest =? 61); munch_vacuous. }
+    destruct (c =? 43). { munch_vacuous. }
+    destruct (c =? 45). { munch_vacuous. }
+    destruct (c =? 33). { destruct (peek rest =? 61); munch_vacuous. }
+    destruct (c =? 47).
+    { destruct (peek rest =? 47); [|munch_vacuous].
+      intro H; inversion H; subst; clear H. simpl skipn.
+      repeat split; intro X; try discriminate X.
+      - destruct X as [X|X]; [discriminate X | apply keyword_type_plain in X; discriminate X].
+      - apply span_len_maximal. }
+    destruct (c =? 42). { munch_vacuous. }
+    destruct (c =? 37). { munch_vacuous. }
+    destruct (c =? 60). { destruct (peek rest =? 61); munch_vacuous. }
+    destruct (c =? 62). { destruct (peek rest =? 61); munch_vacuous. }
+    destruct (c =? 58). { destruct (peek rest =? 61); munch_vacuous. }
+    destruct (c =? 123). { munch_vacuous. }
+    destruct (c =? 125). { munch_vacuous. }
+    destruct (c =? 40). { munch_vacuous. }
+    destruct (c =? 41). { munch_vacuous. }
+    destruct (c =? 91). { munch_vacuous. }
+    destruct (c =? 93). { munch_vacuous. }
+    destruct (c =? 10). { munch_vacuous. }
+    destruct (c =? 46). { destruct ((peek rest =? 46) && (peek2 rest =? 46)); munch_vacuous. }
+    destruct (c =? 34).
+    { destruct (unquote (c :: firstn (string_span b false rest) rest)); munch_vacuous. }
+    destruct (is_end b c). { munch_vacuous. }
+    destruct (is_letter uni_letter c).
+    { destruct (lookup_keyword keywords (c :: firstn (span_len (ident_char uni_letter uni_digit) rest) rest)) as [kw|] eqn:K;
+        intro H; inversion H; subst; clear H; simpl skipn.
+      - apply lookup_keyword_sound in K. apply keyword_entry in K as [Hp _].
+        repeat split; intro X; try (subst; discriminate Hp). apply span_len_maximal.
+      - repeat split; intro X; try discriminate X. apply span_len_maximal. }
+    destruct (is_digit c).
+    { intro H; inversion H; subst; clear H. simpl skipn.
+      repeat split; intro X; try discriminate X.
+      - apply span_len_maximal.
+      - destruct X as [X|X]; [discriminate X | apply keyword_type_plain in X; discriminate X]. }
+    munch_vacuous.
+  Qed.
+
   (* ---------- skipping the rest of a token ---------- *)
   Lemma lex_go_skip : forall k l off line col, (k <= List.length l)%nat ->
     exists line' col', lex_go k off line col l = lex_go O (off + N.of_nat k) line' col' (skipn k l).
@@ -388,7 +461,8 @@ Section Proofs.
       concat lx = effective b l /\
       Forall (fun x => x <> []) lx /\
       map t_off toks = off :: ends off lx /\
-      Forall2 lexeme_ok ts lx.
+      Forall2 lexeme_ok ts lx /\
+      Forall2 maximal_munch ts (rests l lx).
 
   Lemma partition_eof l lit off line col : effective b l = [] ->
     partition_ok l off [mkToken T_EOF lit off line col].
@@ -404,6 +478,7 @@ Section Proofs.
     - destruct l; [|simpl in Hn; lia]. simpl. apply partition_eof. destruct b; reflexivity.
     - destruct l as [|c rest]; [simpl; apply partition_eof; destruct b; reflexivity|].
       simpl. destruct (next_token c rest) as [[ty lit] len] eqn:NT.
+      pose proof (next_token_munch _ _ _ _ _ off line col NT) as Hmun.
       apply (next_token_spec _ _ _ _ _ off line col) in NT.
       destruct NT as [[Hty [Hb Hc]] | [Hty [Hlen [Hok Hnn]]]].
       + subst ty c. simpl. apply partition_eof. rewrite Hb. reflexivity.
@@ -414,7 +489,7 @@ Section Proofs.
         assert (Hshort : (List.length (skipn k rest) <= n)%nat)
           by (rewrite skipn_length; simpl in Hn; lia).
         destruct (IH (skipn k rest) (off + 1 + N.of_nat k) l' c' Hshort)
-          as [lx [ts [e [Et [Ee [Eoff [Ecat [Hne [Eoffs Hall]]]]]]]]].
+          as [lx [ts [e [Et [Ee [Eoff [Ecat [Hne [Eoffs [Hall Hmunch]]]]]]]]]].
         set (x := firstn (S k) (c :: rest)) in *.
         assert (Hx : x ++ skipn k rest = c :: rest).
         { unfold x. change (skipn k rest) with (skipn (S k) (c :: rest)). apply firstn_skipn. }
@@ -433,7 +508,10 @@ Section Proofs.
             with ((off + N.of_nat (List.length x)) :: ends (off + N.of_nat (List.length x)) lx).
           rewrite Eoffs, Hxl.
           replace (off + N.of_nat (S k)) with (off + 1 + N.of_nat k) by lia. reflexivity.
-        * constructor; assumption.
+        * split; [constructor; assumption|].
+          change (rests (c :: rest) (x :: lx))
+            with (skipn (List.length x) (c :: rest) :: rests (skipn (List.length x) (c :: rest)) lx).
+          rewrite Hxl. constructor; [exact Hmun | exact Hmunch].
   Qed.
 
   (* ---------- the theorems, for the lexer as it is (b = true) and the
@@ -456,17 +534,18 @@ Section Proofs.
     concat lx = effective b input /\
     Forall (fun x => x <> []) lx /\
     map t_off toks = 0 :: ends 0 lx /\
-    Forall2 lexeme_ok (removelast toks) lx.
+    Forall2 lexeme_ok (removelast toks) lx /\
+    Forall2 maximal_munch (removelast toks) (rests input lx).
   Proof.
     intro Ho. destruct (lex_go_partition Ho (List.length input) input 0 1 1 (le_n _))
-      as [lx [ts [e [Et [Ee [Eoff [Ecat [Hne [Eoffs Hall]]]]]]]]].
+      as [lx [ts [e [Et [Ee [Eoff [Ecat [Hne [Eoffs [Hall Hmunch]]]]]]]]]].
     change (Lexer.lex_go uni_letter uni_digit b 0 0 1 1 input) with (lex_gen input) in *.
     assert (Hlx : lexemes_of input (lex_gen input) = lx).
     { unfold lexemes_of. rewrite Eoffs. simpl skipn.
       destruct (effective_prefix b input) as [tail Ht].
       apply (slices_ends lx input tail). rewrite Ecat. exact Ht. }
-    simpl. rewrite Hlx. repeat split; try assumption.
-    rewrite Et, removelast_last. exact Hall.
+    simpl. rewrite Hlx. split; [exact Ecat|]. split; [exact Hne|]. split; [exact Eoffs|].
+    rewrite Et, removelast_last. split; assumption.
   Qed.
 
   Theorem lex_gen_ends_with_eof input : (b = true -> oracle_ok) ->
@@ -475,10 +554,30 @@ Section Proofs.
                  t_off e = N.of_nat (List.length (effective b input)).
   Proof.
     intro Ho. destruct (lex_go_partition Ho (List.length input) input 0 1 1 (le_n _))
-      as [lx [ts [e [Et [Ee [Eoff [Ecat [Hne [Eoffs Hall]]]]]]]]].
+      as [lx [ts [e [Et [Ee [Eoff [Ecat [Hne [Eoffs [Hall Hmunch]]]]]]]]]].
     exists ts, e. split; [exact Et|]. split; [exact Ee|]. split; [|rewrite Eoff; lia].
     clear - Hall. induction Hall as [|t x ts lx Hok _ IH]; constructor; [|exact IH].
     intro E. unfold LexerSpec.lexeme_ok in Hok. rewrite E in Hok. exact Hok.
+  Qed.
+
+  (* the partition theorem without, and only, its maximal-munch part *)
+  Corollary lex_gen_partition4 input : (b = true -> oracle_ok) ->
+    let toks := lex_gen input in
+    let lx := lexemes_of input toks in
+    concat lx = effective b input /\
+    Forall (fun x => x <> []) lx /\
+    map t_off toks = 0 :: ends 0 lx /\
+    Forall2 lexeme_ok (removelast toks) lx.
+  Proof.
+    intro Ho. destruct (lex_gen_partition input Ho) as [H1 [H2 [H3 [H4 _]]]].
+    simpl. auto.
+  Qed.
+
+  Corollary lex_gen_maximal_munch input : (b = true -> oracle_ok) ->
+    let toks := lex_gen input in
+    Forall2 maximal_munch (removelast toks) (rests input (lexemes_of input toks)).
+  Proof.
+    intro Ho. destruct (lex_gen_partition input Ho) as [_ [_ [_ [_ H5]]]]. exact H5.
   Qed.
 
   (* ---------- keyword_iff ---------- *)
@@ -538,6 +637,44 @@ Section Proofs.
         apply (Hnot_special c' ws Ex). destruct Hc; subst; reflexivity.
   Qed.
 End Proofs.
+
+(* ---------- the fix of d745e6e changed nothing on inputs without U+0000 ---------- *)
+Lemma span_len_ext p q l :
+  Forall (fun c => p c = q c) l -> span_len p l = span_len q l.
+Proof. induction 1 as [|c l H _ IH]; simpl; [reflexivity|]. rewrite H, IH. reflexivity. Qed.
+
+Lemma is_end_nonnul bb c : c <> 0 -> is_end bb c = false.
+Proof. intro H. unfold is_end. apply N.eqb_neq in H. rewrite H. apply andb_false_r. Qed.
+
+Lemma string_span_nonnul_eq l : Forall (fun c => c <> 0) l ->
+  forall esc, string_span true esc l = string_span false esc l.
+Proof.
+  induction 1 as [|c l H _ IH]; intro esc; cbn [string_span]; [reflexivity|].
+  rewrite !(is_end_nonnul _ c H), IH. reflexivity.
+Qed.
+
+Lemma next_token_nonnul_eq L D c rest : c <> 0 -> Forall (fun c => c <> 0) rest ->
+  next_token L D true c rest = next_token L D false c rest.
+Proof.
+  intros Hc Hr. unfold next_token.
+  rewrite !(is_end_nonnul _ c Hc), (string_span_nonnul_eq rest Hr).
+  rewrite (span_len_ext (comment_char true) (comment_char false) rest); [reflexivity|].
+  eapply Forall_impl; [|exact Hr]. intros a Ha. unfold comment_char. rewrite !(is_end_nonnul _ a Ha). reflexivity.
+Qed.
+
+Lemma lex_go_nonnul_eq L D l : Forall (fun c => c <> 0) l ->
+  forall skip off line col, lex_go L D true skip off line col l = lex_go L D false skip off line col l.
+Proof.
+  induction 1 as [|c l Hc Hl IH]; intros skip off line col; simpl; [reflexivity|].
+  destruct skip; [|apply IH].
+  rewrite (next_token_nonnul_eq L D c l Hc Hl).
+  destruct (next_token L D false c l) as [[ty lit] len].
+  destruct (token_type_beq ty T_EOF); [reflexivity|]. rewrite IH. reflexivity.
+Qed.
+
+Theorem lex_before_fix_agrees L D input : Forall (fun c => c <> 0) input ->
+  lex_before_fix L D input = lex L D input.
+Proof. intro H. exact (lex_go_nonnul_eq L D input H O 0 1 1). Qed.
 
 (* ---------- strconv.Unquote model: the escape-free case ---------- *)
 (* a quoted lexeme without backslash, quote or newline inside unquotes to its body *)
